@@ -53,6 +53,8 @@ FullAlphabet ==
 CellAlphabet ==
   {RW("B", "none", "print", w) : w \in {"none", "sd"}} \cup
   {RW(k, "none", "print", w) : k \in {"BF", "EF"}, w \in {"none", "sd", "sf", "sm"}} \cup
+  \* BEGINFILE / ENDFILE rules without a body print $: what the rules before them left in the cell they are bound to
+  {RW(k, "none", "bare", "none") : k \in {"BF", "EF"}} \cup
   {RW("P", p, "print", w) : p \in {"none", "memb", "nmemb", "self"}, w \in {"none", "sd", "sf", "sm"}} \cup
   {RW("P", "nmemb", "next", "sm"), RW("P", "none", "exit", "sd"), RW("P", "memb", "bare", "none")} \cup
   {RW("E", "none", "print", w) : w \in {"none", "sd"}} \cup {RW("E", "none", "bare", "none")}
@@ -264,7 +266,9 @@ DFileRules(k, j, st, f, v, s) ==
            w == EffW(rules[r].w, EK(PristineRoot(f, v, s), st.root))
            e == DEntry("body", r, TRUE, SigOf(rules[r]), DRoot(f, v, s), -1, f, w, st.root,
                        (IF IsArr(f, v, s, st) THEN st.els ELSE <<>>), st.fwv, k = "EF" /\ st.root[1] = "w")
-           rest == DFileRules(k, j + 1, [st EXCEPT !.root = Ov(@, w, r), !.fwv = IF w = "sf" THEN r ELSE @], f, v, s)
+           \* `$ = v` in an ENDFILE rule is the rule's own: the next one is bound to the selected root again
+           rest == DFileRules(k, j + 1, [st EXCEPT !.root = (IF k = "EF" /\ w = "sd" THEN @ ELSE Ov(@, w, r)),
+                                                   !.fwv = IF w = "sf" THEN r ELSE @], f, v, s)
        IN [q |-> <<e>> \o rest.q, st |-> rest.st]
 
 \* one round of the pattern rules from the j-th on, on a cell that holds a value of kind pk as read and overlay ov
